@@ -561,7 +561,9 @@ func (w *World) judgeVerdicts(pn *Node, h int64, t time.Time, pv *cmttypes.Valid
 	for id, accept := range verdicts {
 		n := w.Nodes[id]
 		if accept {
-			if ok, why := w.proposalConditions(n, h, pv, txs); !ok && !n.lastFaulted {
+			// (an engine fault injected on this verifier does not excuse an acceptance: whatever the
+			// engine answered, the conditions are judged on what it really validated)
+			if ok, why := w.proposalConditions(n, h, pv, txs); !ok {
 				w.violate("C08", "malformed-proposal-accepted", why, "height %d: node %d accepted a proposal (%s %s) although: %s", h, id, spec.Kind, spec.Mut, why)
 				if strings.Contains(why, "is not admissible") {
 					// C10, process mode: a transaction is admitted to a block only if ...
